@@ -31,7 +31,7 @@ Definition model_read (parent : usys) (v : jv) : res sp_obj := read_species str 
 Definition accept_C12_species (c : sp_obj * usys) (o : jv * list (jv * jv)) : verdict :=
   let '(s, parent) := c in let '(written, variants) := o in
   (jv_eqb (model_write s) written
-   && forallb (fun io : jv * jv => match model_read parent (fst io) with Ok s' => jv_eqb (model_write s') (snd io) | Err => false end) variants,
+   && forallb (fun io : jv * jv => match model_read parent (fst io) with Ok s' => jv_eqb (model_write s') (snd io) | Err => jv_eqb JNull (snd io) end) variants,
    S (length variants)).
 
 Definition re_obj := reaction_obj str.
@@ -40,7 +40,7 @@ Definition model_read_r (parent : usys) (v : jv) : res re_obj := read_reaction s
 Definition accept_C12_reaction (c : re_obj * usys) (o : jv * list (jv * jv)) : verdict :=
   let '(r, parent) := c in let '(written, variants) := o in
   (jv_eqb (model_write_r r) written
-   && forallb (fun io : jv * jv => match model_read_r parent (fst io) with Ok r' => jv_eqb (model_write_r r') (snd io) | Err => false end) variants,
+   && forallb (fun io : jv * jv => match model_read_r parent (fst io) with Ok r' => jv_eqb (model_write_r r') (snd io) | Err => jv_eqb JNull (snd io) end) variants,
    S (length variants)).
 
 Definition ne_obj := network_obj str.
@@ -49,5 +49,14 @@ Definition model_read_n (parent : usys) (v : jv) : res ne_obj := read_network st
 Definition accept_C12_network (c : ne_obj * usys) (o : jv * list (jv * jv)) : verdict :=
   let '(n, parent) := c in let '(written, variants) := o in
   (jv_eqb (model_write_n n) written
-   && forallb (fun io : jv * jv => match model_read_n parent (fst io) with Ok n' => jv_eqb (model_write_n n') (snd io) | Err => false end) variants,
+   && forallb (fun io : jv * jv => match model_read_n parent (fst io) with Ok n' => jv_eqb (model_write_n n') (snd io) | Err => jv_eqb JNull (snd io) end) variants,
+   S (length variants)).
+
+Definition gr_obj := grid_obj str.
+Definition model_write_g (g : gr_obj) : jv := write_grid str (fun t => t) wr12 g.
+Definition model_read_g (parent : usys) (v : jv) : res gr_obj := read_grid str (fun t => Some t) [48%N; 46%N; 48%N] [49%N; 46%N; 48%N] parent v.
+Definition accept_C12_grid (c : gr_obj * usys) (o : jv * list (jv * jv)) : verdict :=
+  let '(g, parent) := c in let '(written, variants) := o in
+  (jv_eqb (model_write_g g) written
+   && forallb (fun io : jv * jv => match model_read_g parent (fst io) with Ok g' => jv_eqb (model_write_g g') (snd io) | Err => jv_eqb JNull (snd io) end) variants,
    S (length variants)).
